@@ -185,3 +185,30 @@ class Report:
             self.pid, n_ob, n_ok, len(knownhits), len(viol), len(self.functions), wall))
         sys.stdout.flush()
         return 1 if viol else 0
+
+
+class SubReport(Report):
+    """Collects the obligations of another property's rule set so that a property whose statement includes them can
+    restate them under its own id (see merge_sub): never finishes, writes nothing."""
+
+    def finish(self):
+        raise AnalysisError("SubReport.finish() must not be called")
+
+
+def merge_sub(rep, sub, rule, label):
+    """Restate sub's obligations in rep under `rule`: each failing obligation individually (same construct, detail prefixed
+    with the originating rule), the passing ones as one aggregated obligation per (originating rule, construct)."""
+    agg = {}
+    for o in sub.obligations:
+        if o["ok"]:
+            k = (o["rule"], o["construct"])
+            agg[k] = agg.get(k, 0) + 1
+        else:
+            rep.ob(rule, o["construct"], "%s-%s:%s" % (label, o["rule"], o["detail"]), False, expected=o.get("expected"), derived=o.get("derived"),
+                   where=o.get("where"), msg=o.get("msg"))
+    for (r, c), n in sorted(agg.items()):
+        rep.ob(rule, c, "%s-%s:holds" % (label, r), True, derived="%d obligations discharged" % n)
+    rep.functions |= sub.functions
+    for a, b, c in sub.floors:
+        rep.floors.append(("%s: %s" % (label, a), b, c))
+    return len(sub.obligations)
